@@ -278,6 +278,9 @@ def c16(acc):
     replay_reader(acc, p, "slice")
     _, p2 = mc_reader(acc, 3 if q else 4, "cover", ["Inv_RefMatch"], name="MC_Reader-c16cover")
     replay_reader(acc, p2, "slice")
+    # hyphen runs inside comments under check_comments, end-tag blanks under trim_markup_names, blanks around text under the trims
+    _, p3 = mc_reader(acc, 6 if q else 8, "cover", ["Inv_RefMatch"], frag="comment2", name="MC_Reader-c16comment")
+    replay_reader(acc, p3, "slice")
     trace_reader(acc, 400 if q else 4000, "doc,mut,corpus", "plain", sources="all", max_len=500 if q else 3000)
     return acc.finish()
 
@@ -582,7 +585,7 @@ def c17(acc):
     return acc.finish()
 
 
-RT_TYPES = ["F01", "F02", "F03", "F04", "F05", "F07", "F08", "F11", "F15", "F16", "F17", "F18", "F19", "F20", "F22", "F23", "F24", "F25", "F26", "F27", "F28"]
+RT_TYPES = ["F01", "F02", "F03", "F04", "F05", "F07", "F08", "F11", "F15", "F16", "F17", "F18", "F19", "F20", "F22", "F23", "F24", "F25", "F26", "F27", "F28", "F29"]
 
 
 def mc_serde(acc, types, mode, name, timeout=2500):
@@ -739,7 +742,7 @@ def c20(acc):
                 "document deserialized without limit (must equal the value) and with event_buffer_size = 1..total+1: the value or TooManyEvents, TooManyEvents "
                 "whenever Held > limit, monotone in the limit. non-trivial = interleavings that need buffering")
     acc.trusted = SERDE_TRUST
-    _, p = mc_de(acc, "interleave", 1, ["F22", "F23", "F26"], "MC_De-inter")
+    _, p = mc_de(acc, "interleave", 1, ["F22", "F23", "F26", "F29"], "MC_De-inter")
     de_replay(acc, p, "interleave", "B:interleavings x buffer limits")
     return acc.finish()
 
